@@ -303,9 +303,10 @@ var c11Extremes = []func(tag string) string{
 	func(t string) string { return t + " SEARCH BEFORE 99-Jan-99999" },
 	func(t string) string { return t + " STORE 1 +FLAGS (" + strings.Repeat(`\Seen `, 50000) + ")" },
 	func(t string) string { return t + " STORE 1 +FLAGS " + strings.Repeat("(", 5000) },
-	// (1000 wildcard pairs: matching costs pattern size x name bytes; 20000 pairs against a hundred long names
+	// (300 wildcard pairs: matching costs pattern size x name bytes; 1000 pairs came within reach of the 60 s
+	// watchdog once earlier commands had left long mailbox names behind, 20000 pairs against a hundred long names
 	// take more than a minute of CPU - proportional work, not a spin, but it would starve the rest of the run)
-	func(t string) string { return t + " LIST \"\" " + strings.Repeat("%*", 1000) },
+	func(t string) string { return t + " LIST \"\" " + strings.Repeat("%*", 300) },
 	func(t string) string { return t + " LIST " + strings.Repeat("a/", 20000) + " *" },
 	// (depth kept at 120: the cost of LIST grows cubically with the depth of the hierarchy - 15 s at 1000
 	// levels, more than 5 min at 3000 - which would drown every later LIST of the run; see DESIGN.md)
